@@ -48,7 +48,7 @@ var c15recSessions = []int{0, 1, 4}
 
 // advertisement sets: indexes into the shared advertisement catalogue; chosen so that one set is a tail-removal of
 // another, one is empty, and one differs in attributes only
-var c15recAdvSets = [][]int{{}, {0}, {0, 1}, {1}, {0, 3}, {2, 5, 6}}
+var c15recAdvSets = [][]int{{}, {0}, {0, 1}, {1}, {0, 3}, {2, 5, 6}, {3, 0}}
 
 func c15recExec(res *verifrt.Result, c c15recCase) {
 	res.Count("evaluations", 1)
@@ -69,6 +69,35 @@ func c15recExec(res *verifrt.Result, c c15recCase) {
 	})
 	open := map[int]bgp.Session{}
 	accepted := map[int][]string{} // per open session: the prefixes of its last accepted Set
+	acceptedSet := map[int]int{}   // per open session: index of the advertisement set of its last accepted Set (-1: none yet)
+	var openOrder []int
+	refusedSeen := false
+	// fresh computes what a newly started session manager hands over for the sessions open now with their last accepted
+	// requests (the resource is a function of the session set: C15)
+	fresh := func() *frrv1beta1.FRRConfiguration {
+		sm2 := frrk8s.NewSessionManager(log.NewNopLogger(), logging.LevelInfo, "node1", "frr-k8s-system")
+		var h2 *frrv1beta1.FRRConfiguration
+		sm2.SetEventCallback(func(i interface{}) {
+			cfg := i.(frrv1beta1.FRRConfiguration)
+			h2 = cfg.DeepCopy()
+		})
+		for _, si := range openOrder {
+			s2, err := sm2.NewSession(log.NewNopLogger(), cat[c15recSessions[si]].Params)
+			if err != nil {
+				return nil
+			}
+			if ai := acceptedSet[si]; ai >= 0 {
+				var as []*bgp.Advertisement
+				for _, k := range c15recAdvSets[ai] {
+					as = append(as, advs[k].Adv())
+				}
+				if err := s2.Set(as...); err != nil {
+					return nil
+				}
+			}
+		}
+		return h2
+	}
 	viol := func(sig, detail string) {
 		res.Violate(sig, detail+"\n  operations: "+strings.Join(c.Readable, " ; "), c)
 	}
@@ -82,6 +111,8 @@ func c15recExec(res *verifrt.Result, c c15recCase) {
 				return
 			}
 			open[op.Session] = s
+			openOrder = append(openOrder, op.Session)
+			acceptedSet[op.Session] = -1
 		case "set":
 			var as []*bgp.Advertisement
 			for _, ai := range c15recAdvSets[op.AdvSet] {
@@ -92,6 +123,7 @@ func c15recExec(res *verifrt.Result, c c15recCase) {
 				return
 			}
 			accepted[op.Session] = nil
+			acceptedSet[op.Session] = op.AdvSet
 			for _, a := range as {
 				accepted[op.Session] = append(accepted[op.Session], a.Prefix.String())
 			}
@@ -114,6 +146,7 @@ func c15recExec(res *verifrt.Result, c c15recCase) {
 				viol("C15 resource: a Set with an advertisement of 64 communities was accepted", "")
 				return
 			}
+			refusedSeen = true
 		case "openbad":
 			// a session request that must be refused (a password AND a secret reference): it leaves no trace - every later
 			// operation on the other sessions works as before
@@ -132,6 +165,13 @@ func c15recExec(res *verifrt.Result, c c15recCase) {
 			}
 			delete(open, op.Session)
 			delete(accepted, op.Session)
+			delete(acceptedSet, op.Session)
+			for k, v := range openOrder {
+				if v == op.Session {
+					openOrder = append(append([]int{}, openOrder[:k]...), openOrder[k+1:]...)
+					break
+				}
+			}
 		}
 		if op.Kind != "reconcile" && handed != nil {
 			for si := range c15recSessions {
@@ -169,6 +209,17 @@ func c15recExec(res *verifrt.Result, c c15recCase) {
 					viol("C15 resource: allowed prefixes of a neighbor differ from its last accepted request "+after, fmt.Sprintf("%s: allowed %v, last accepted request %v", addr, got, accepted[si]))
 					return
 				}
+			}
+		}
+		// differential: once a request was refused, everything handed over later must be what a freshly started session
+		// manager hands over for the same sessions and their last accepted requests (communities, local preferences,
+		// router prefixes and session parameters included)
+		if refusedSeen && (op.Kind == "open" || op.Kind == "set" || op.Kind == "close") && handed != nil {
+			if f := fresh(); f != nil && !reflect.DeepEqual(f.Spec, handed.Spec) {
+				a, _ := json.Marshal(handed.Spec)
+				b, _ := json.Marshal(f.Spec)
+				viol("C15 resource: configuration handed over after a refused request differs from a freshly started session manager's", fmt.Sprintf("handed %s\nfresh  %s", a, b))
+				return
 			}
 		}
 		switch op.Kind {
@@ -273,7 +324,9 @@ func TestVerif_C15rec(t *testing.T) {
 			for ai := range c15recAdvSets {
 				next(c15recOp{Kind: "set", Session: si, AdvSet: ai}, fmt.Sprintf("%s.Set(adv set %v)", name, c15recAdvSets[ai]), open)
 			}
-			next(c15recOp{Kind: "setbad", Session: si, AdvSet: 2}, fmt.Sprintf("%s.Set(adv set %v with a 64-community advertisement in the middle: refused)", name, c15recAdvSets[2]), open)
+			for _, bi := range []int{2, 6} {
+				next(c15recOp{Kind: "setbad", Session: si, AdvSet: bi}, fmt.Sprintf("%s.Set(adv set %v with a 64-community advertisement in the middle: refused)", name, c15recAdvSets[bi]), open)
+			}
 			o2 := map[int]bool{}
 			for k := range open {
 				if k != si {
